@@ -13,8 +13,8 @@ extra = ""
 if rnd > 1 and used:
     extra = ("\nThis is round %d. Changes already produced in earlier rounds (do NOT repeat these functions or ideas; find different ones):\n  - " % rnd
              + "\n  - ".join(used)
-             + "\nFor this round look further afield: helper functions in other modules that the property silently depends on; behaviour that differs only for one dtype (float32, complex, integer), one dimension, one composite rank (>= 2, or size-1 axes), one non-default keyword argument, the second call on the same object (state / caching / aliasing of caller data), an input at a boundary (zero, exactly equal values, an empty word or list, a repeated label), or the interaction of two call sites that each look fine alone. At least one of your changes should be a 'two cooperating sites' or 'needs a sequence of calls' change.\n")
-print(f"""You are testing how good a (hidden) verification harness is. You get one semantic property of the Python library tjweisman/geometry_tools (numpy toolkit for hyperbolic/projective geometry, isometries, group representations, Coxeter groups, finite-state automata, matplotlib drawing) and your own scratch git worktree of the library at {wt} (a detached worktree; edit files there freely; never touch /repo, never look at or touch /verif or any other /tmp/seed_* directory).
+             + "\nFor this round look further afield: helper functions in other modules that the property silently depends on; behaviour that differs only for one dtype (float32, complex, integer), one dimension, one composite rank (>= 2, or size-1 axes), one non-default keyword argument, the second call on the same object (state / caching / aliasing of caller data), an input at a boundary (zero, exactly equal values, an empty word or list, a repeated label), or the interaction of two call sites that each look fine alone. At least one of your changes should be a 'two cooperating sites' or 'needs a sequence of calls' change." + (" In round 3 and later at least one change should alter the result only slightly but clearly beyond rounding (a relative error between 1e-6 and 1e-2 for some inputs: a truncated series, a dropped small term, single precision sneaking into one intermediate, an approximate comparison that is too generous), and at least one should sit in a code path reached only through a public function that the earlier changes did not go through." if rnd >= 3 else "") + "\n")
+print(f"""You are testing how good a (hidden) verification harness is. You get one semantic property of the Python library tjweisman/geometry_tools (numpy toolkit for hyperbolic/projective geometry, isometries, group representations, Coxeter groups, finite-state automata, matplotlib drawing) and your own scratch git worktree of the library at {wt} (a detached worktree; edit files there freely; never touch /repo, never look at or touch /verif or any other /tmp/seed_* directory; never use `git stash` - the stash is shared with other worktrees of the same repository that other people are using right now; save a change with `git diff > file` and undo it with `git checkout -- .`).
 
 PROPERTY {pid}: {p['title']}
 Statement: {p['statement']}
